@@ -23,7 +23,7 @@ ASSUMPTIONS = ["icontract invariant is evaluated single-threaded at method entry
 MIN_NONTRIVIAL = {"quick": 3000, "thorough": 20000}
 REQUIRED_COUNTERS = {"towers": {"quick": 3000, "thorough": 60000},
                      "nested_paths": {"quick": 1000, "thorough": 20000},
-                     "customize_combinations": {"quick": 48, "thorough": 48},
+                     "customize_combinations": {"quick": 80, "thorough": 80},
                      "identity_pairs": {"quick": 200, "thorough": 2000},
                      "identitydict_ops": {"quick": 20000, "thorough": 400000}}
 SHARD_TIMEOUT = {"quick": 400, "thorough": 5400}
@@ -285,7 +285,7 @@ def worker(spec):
     for hide in (False, True):
         for hide_line in (False, True):
             for prune in (False, True):
-                for elab in ("none", "returns_none", "returns_replacement"):
+                for elab in ("none", "returns_none", "returns_replacement", "returns_prune", "returns_empty_list"):
                     for form in ("direct", "decorator"):
                         combos += 1
                         res.evaluations += 1
@@ -303,11 +303,23 @@ def worker(spec):
                             calls.append("repl")
                             return repl_gen
 
+                        def el_prune(frame, nxt):
+                            calls.append("prune")
+                            return PRUNE
+
+                        def el_empty(frame, nxt):
+                            calls.append("empty")
+                            return []
+
                         kw = dict(hide=hide, hide_line=hide_line, prune=prune)
                         if elab == "returns_none":
                             kw["elaborate"] = el_none
                         elif elab == "returns_replacement":
                             kw["elaborate"] = el_repl
+                        elif elab == "returns_prune":
+                            kw["elaborate"] = el_prune
+                        elif elab == "returns_empty_list":
+                            kw["elaborate"] = el_empty
 
                         def callee(fr):
                             return extract_since(fr)
@@ -333,6 +345,10 @@ def worker(spec):
                         if elab == "returns_replacement":
                             if names_after != ["park"]:
                                 problems.append("replacement not in effect: %r" % names_after)
+                        elif elab in ("returns_prune", "returns_empty_list"):
+                            # the elaborate callback's own (non-None) result must take effect
+                            if names_after:
+                                problems.append("elaborate returned PRUNE/[] but callees present: %r" % names_after)
                         elif prune:
                             if names_after:
                                 problems.append("prune=True but callees present: %r" % names_after)
